@@ -160,6 +160,21 @@ def run(report, tier, seed):
             chain = [{"ns": 0, "imports": [first, limit + 1 - first] if first == 1 else [limit, 1]}]
             chain += [{"ns": d, "imports": [d + 1]} for d in range(1, limit)] + [{"ns": limit, "imports": []}]
             worlds.append(chain)
+        # wide and shallow: many importing packages at nesting depth 2 (the limit is about the depth of a chain, not about how many
+        # packages import something), the last newcomer first / in the middle / last in the root's import list
+        for k in (limit - 2, limit - 1, limit, limit + 1, limit + 3):
+            for pos in ("first", "middle", "last"):
+                mids = list(range(1, k + 1))
+                base, leaf = k + 1, k + 2
+                imps = [leaf] + mids if pos == "first" else mids + [leaf] if pos == "last" else mids[:k // 2] + [leaf] + mids[k // 2:]
+                w = [{"ns": 0, "imports": imps}] + [{"ns": d, "imports": [base]} for d in mids] + [{"ns": base, "imports": []}, {"ns": leaf, "imports": [base]}]
+                worlds.append(w)
+        # two layers of importers: root -> a_i -> b_i -> base (depth 3), more importers than the limit in total
+        for k in (limit // 2, limit // 2 + 1, limit):
+            a = list(range(1, k + 1))
+            b = list(range(k + 1, 2 * k + 1))
+            base = 2 * k + 1
+            worlds.append([{"ns": 0, "imports": a}] + [{"ns": d, "imports": [b[i]]} for i, d in enumerate(a)] + [{"ns": d, "imports": [base]} for d in b] + [{"ns": base, "imports": []}])
         for idx, world in enumerate(worlds):
             _judge(report, sc, ybin, lean, world, 0, limit, idx, rng, seed)
         # usable: every order of every import list of the diamond / shortcut worlds (all are accepted)
